@@ -1096,7 +1096,23 @@ def tiny_hint_workspaces(rng, n):
             emit("def d" + sp() + "{" + sp() + cname + " g" + sp() + "=" + sp())
             ref()
             emit(";" + sp() + "}" + rng.choice(["", nl]))
+        feats = ["tiny-hints"]
+        if rng.random() < 0.35:
+            # the class only as a TYPE inside the argument list of ANOTHER reference (`!cast<K>(..)`): the only hints of that list
+            # are the enclosing reference's own parameter names; K's parameters must not show up there (wave 4: C19-mut6)
+            oname = "O" + rng.choice("pqr")
+            emit(nl + "class " + oname + "<" + cname + " r," + sp() + "int w>;" + nl)
+            emit("def u" + sp() + ":" + sp())
+            lo, hi = emit(oname)
+            emit(sp() + "<" + sp())
+            pos, _ = emit("!cast<" + cname + '>("d")')
+            hints.append({"pos": pos, "label": "r:", "kind": "TemplateArg", "owner": [lo, hi]})
+            emit(sp() + "," + sp())
+            pos, _ = emit("8")
+            hints.append({"pos": pos, "label": "w:", "kind": "TemplateArg", "owner": [lo, hi]})
+            emit(sp() + ">;" + rng.choice(["", nl]))
+            feats.append("cast-class-type-in-arguments")
         text = "".join(parts)
-        out.append({"files": [["main.td", text]], "root": "main.td", "features": ["tiny-hints"],
+        out.append({"files": [["main.td", text]], "root": "main.td", "features": feats,
                     "expected": {"main.td": {"outline": [], "folds": [], "occ": [], "hints": hints}}})
     return out
